@@ -201,3 +201,107 @@ def must_pass_any_edge(body, site, edges):
     if not edges:
         return False
     return site not in body.reach_from(0, without_edges=tuple(sorted(set(edges))))
+
+
+# ---------------------------------------------------------------------------
+# arithmetic expression trees (integer layout rules: C19, C07)
+# ---------------------------------------------------------------------------
+
+_ARITH = {"Add": "add", "AddWithOverflow": "add", "AddUnchecked": "add",
+          "Sub": "sub", "SubWithOverflow": "sub", "SubUnchecked": "sub",
+          "Mul": "mul", "MulWithOverflow": "mul", "MulUnchecked": "mul"}
+
+
+def arith(body, x, depth=0):
+    """Expression tree of an integer operand inside one body:
+    ('param', name) | ('capture', name) | ('const', int) | ('add'|'sub'|'mul', l, r) |
+    ('call', callee, site, [arg trees]) | ('phi', [trees]) | ('place', provenance strings)"""
+    if depth > 24:
+        return ("place", ("<deep>",))
+    if x.get("k") == "const":
+        if "int" in x:
+            return ("const", x["int"])
+        return ("constx", x.get("repr"))
+    place = x["place"] if x.get("k") in ("copy", "move") else x
+    l = place["l"]
+    fields = mir.proj_fields(place)
+    has_deref = any(p["k"] == "deref" for p in place["p"])
+    if 1 <= l <= body.argc and not fields:
+        if body.is_closure and l == 1:
+            return ("capture", "<env>")
+        return ("param", body.local_name(l) or "arg%d" % l)
+    if 1 <= l <= body.argc or (has_deref and fields):
+        return ("place", tuple(sorted(mir.show_root(r) for r in prov(body, place))))
+    defs = [d for d in body.defs().get(l, []) if not d[3]["p"]]
+    if not defs:
+        return ("place", tuple(sorted(mir.show_root(r) for r in prov(body, place))))
+    alts = []
+    for dk, dbb, di, dpl, payload in defs:
+        if dk == "call":
+            t = payload
+            if fields and not (callee_def(t) == "std::ops::Try::branch"):
+                alts.append(("place", tuple(sorted(mir.show_root(r) for r in prov(body, place)))))
+                continue
+            if callee_names(t) & mir._transparent() and t["args"] and not fields:
+                alts.append(arith(body, t["args"][0], depth + 1))
+                continue
+            if callee_def(t) == "std::ops::Try::branch" and fields[:2] == ["#Continue", "0"]:
+                inner = arith(body, t["args"][0], depth + 1)
+                alts.append(("try", inner))
+                continue
+            alts.append(("call", callee(t) or "<indirect>", dbb, [arith(body, a, depth + 1) for a in t["args"]]))
+            continue
+        if dk != "assign":
+            alts.append(("place", ("setdiscr",)))
+            continue
+        rv = payload
+        k = rv["k"]
+        if k == "binop" and rv["op"] in _ARITH and (fields in ([], ["0"])):
+            alts.append((_ARITH[rv["op"]], arith(body, rv["l"], depth + 1), arith(body, rv["r"], depth + 1)))
+        elif k in ("use", "cast") and not fields:
+            alts.append(arith(body, rv["op"], depth + 1))
+        elif k in ("ref", "copyforderef") and not fields:
+            alts.append(arith(body, rv["place"], depth + 1))
+        elif k == "use" and fields and rv["op"].get("k") in ("copy", "move"):
+            p2 = dict(rv["op"]["place"])
+            p2 = {"l": p2["l"], "p": list(p2["p"]) + list(place["p"])}
+            alts.append(arith(body, p2, depth + 1))
+        else:
+            alts.append(("place", tuple(sorted(mir.show_root(r) for r in prov(body, place)))))
+    if len(alts) == 1:
+        return alts[0]
+    return ("phi", alts)
+
+
+def arith_leaves(tree, through=("add", "sub", "mul", "phi", "try")):
+    """leaves of an arithmetic tree, with the sign/op path: [(path_ops, leaf)]"""
+    out = []
+
+    def walk(t, path):
+        if t[0] in ("add", "sub", "mul") and t[0] in through:
+            walk(t[1], path + (t[0] + ".l",))
+            walk(t[2], path + (t[0] + ".r",))
+        elif t[0] == "phi" and "phi" in through:
+            for a in t[1]:
+                walk(a, path + ("phi",))
+        elif t[0] == "try" and "try" in through:
+            walk(t[1], path)
+        else:
+            out.append((path, t))
+    walk(tree, ())
+    return out
+
+
+def arith_str(t):
+    k = t[0]
+    if k in ("add", "sub", "mul"):
+        return "(%s %s %s)" % (arith_str(t[1]), {"add": "+", "sub": "-", "mul": "*"}[k], arith_str(t[2]))
+    if k == "call":
+        return "%s(%s)" % (t[1].rsplit("::", 1)[-1], ", ".join(arith_str(a) for a in t[3]))
+    if k == "phi":
+        return "phi(%s)" % " | ".join(arith_str(a) for a in t[1])
+    if k == "try":
+        return arith_str(t[1]) + "?"
+    if k in ("param", "capture", "const", "constx"):
+        return str(t[1])
+    return "/".join(t[1])
